@@ -65,6 +65,7 @@ def setup(rep, tier):
     rep.minimum('R02.6', 1)
     rep.minimum('R02.7', 60)
     rep.minimum('R02.8', 1)
+    rep.minimum('R02.9', 1)
 
 
 def coder_calls(f):
@@ -551,15 +552,25 @@ def r02_6(rep, prog):
     kout = ('param', f.param_index('out_data_bytes'))
     n = 0
     bad = []
+    lbw = sx.strip(sc[2][2])
+    BW_OK = {1000: (1101, 1102, 1103), 1001: (1104, 1105), 1002: (1101, 1103, 1104, 1105)}
     for rate_in, samples in sorted(_IN_SAMPLES.items()):
         for mode in (0, 1000, 1001, 1002):
+          for bw_in in (0, 1101, 1102, 1103, 1104, 1105):
             for one in (True, False):
                 if one and rate_in == 10 and refused:
                     continue
-                entry = {('local', lrate[2]): absint.const(rate_in), ('field', kst, 'mode'): absint.const(mode),
+                entry = {('local', lrate[2]): absint.const(rate_in), ('field', kst, 'mode'): absint.const(mode), ('field', kst, 'bandwidth'): absint.const(bw_in),
                          kout: absint.const(1) if one else absint.mk(2, 7650)}
                 an = absint.Analyzer(prog, f, entry_state=entry, start=start, call_summary=absint.inline_summary(prog), havoc_fields_on_call=False)
                 st = an.state_at(sb, si)
+                if st is not None and sx.kind(lbw) == 'local':
+                    vb = absint.values(an.lookup(st, ('local', lbw[2]), absint.mk(-2**31, 2**31 - 1)), 8)
+                    vm0 = absint.values(an.lookup(st, ('local', lmode[2]), absint.mk(-2**31, 2**31 - 1)), 8)
+                    if vb and vm0 and len(vm0) == 1 and vm0[0] in BW_OK and any(x not in BW_OK[vm0[0]] for x in vb):
+                        bad.append((rate_in, mode, one, 'TOC mode %d with bandwidth %s (previous bandwidth %d): that combination has no TOC, the bandwidth bits spill into the frame-size field' % (vm0[0], vb, bw_in)))
+                        n += 1
+                        continue
                 if st is None:
                     bad.append((rate_in, mode, one, 'TOC store unreachable'))
                     continue
@@ -590,17 +601,45 @@ def r02_6(rep, prog):
                     bad.append((rate_in, mode, one, 'announces %d x %d samples (mode %d, code %d) for a %d-sample frame (48 kHz units)' % (cnt, _TOC_OK[m][r], m, k, samples)))
     inst = '%s:the low-budget packet announces exactly the submitted duration' % prog.config
     where = '%s:%s' % (f.file, sx.line(sc))
-    if n < 60:
+    if n < 300:
         rep.unresolved('R02.6', inst + ': only %d (frame size, mode, budget) cases analysed' % n)
     elif bad:
         r0 = bad[0]
         rep.violated('R02.6', inst, where, 'submitted %d frames/s, st->mode=%d, %s: %s  (%d of %d cases disagree)' % (r0[0], r0[1], 'one output byte' if r0[2] else 'two or more output bytes', r0[3], len(bad), n),
                      key='low-budget-toc')
     else:
-        rep.holds('R02.6', inst, where, '%d cases (9 frame sizes x 4 modes x {1 byte, more}%s), region started at the declaration of `%s`' % (n, ', 100 ms into 1 byte refused earlier' if refused else '', lmode[1]))
+        rep.holds('R02.6', inst, where, '%d cases (9 frame sizes x 4 modes x 6 previous bandwidths x {1 byte, more}%s), region started at the declaration of `%s`' % (n, ', 100 ms into 1 byte refused earlier' if refused else '', lmode[1]))
+
+
+# ------------------------------------------------------------------ R02.9
+def r02_9(rep, prog):
+    """encoder and decoder remember `the previous frame was coded mid-only` once per FRAME (the decoder stores it at
+    the end of every silk_Decode call).  The encoder-side store in silk_Encode must not be tied to the end of the
+    packet: inside a 40 / 60 ms packet the two sides would otherwise choose different conditional-coding modes
+    for the side channel."""
+    n = 0
+    for fname in ('silk_Encode',):
+        if not prog.has_fn(fname):
+            continue
+        f = prog.fn(fname)
+        cf = cfgm.CFG(f)
+        for b, i, s_ in cf.positions():
+            if s_[0] == 'assign' and sx.kind(sx.strip(s_[1])) == 'field' and sx.strip(s_[1])[3] == 'prev_decode_only_middle':
+                n += 1
+                rep.functions.add(fname)
+                packet_end = [sx.show(c) for c, pol, gb in cfgm.guards_of(cf, b) if c is not None and pol is True and 'nFramesEncoded' in sx.show(c) and 'nFramesPerPacket' in sx.show(c)]
+                inst = '%s:%s refreshes prev_decode_only_middle once per frame, like the decoder' % (prog.config, fname)
+                where = '%s:%s' % (f.file, sx.line(s_))
+                if packet_end:
+                    rep.violated('R02.9', inst, where, 'the store is made only under `%s` (end of the packet): frames 2 and 3 of a 40 / 60 ms packet see the value of the previous PACKET while the decoder sees that of the previous frame' % packet_end[0][:90],
+                                 key='prev-mid-only-per-packet')
+                else:
+                    rep.holds('R02.9', inst, where, 'not conditional on the end of the packet')
+    return n
 
 
 def check(rep, prog, tier):
+    r02_9(rep, prog)
     r02_6(rep, prog)
     pt = PointsTo(prog)
     n = r02_1(rep, prog, pt)
